@@ -1,11 +1,11 @@
 import QuartzModel.Proofs.TransLoggerLemmas
 import QuartzModel.Theorems.C18
 /-!
-# The translated loggers and isolated job (`Generated.TransLogger`, regenerated from /repo by `harness/cmd/gotolean-logger`)
+# The translated loggers (`Generated.TransLogger`, regenerated from /repo by `harness/cmd/gotolean-logger`)
 # compute what the hand-written models compute
 
 Model side: `Logger` (Logger/Simple.lean: `enabled`, `formatMessage`, `simpleLog`, the level/prefix table, `lstep`/`lrun`, `slogLevel`,
-`slogLog`, `noopLog`) and `Jobs.Isolated` (Jobs/Isolated.lean: the per-thread step program `Step`).
+`slogLog`, `noopLog`).  The isolated job of the same generated file is in `Theorems/TransIsolated.lean`.
 
 ## SimpleLogger
 * `trans_level_table`, `trans_enabled`, `trans_NewSimpleLogger` — constants, prefixes, the filter, the constructor
@@ -16,6 +16,11 @@ Model side: `Logger` (Logger/Simple.lean: `enabled`, `formatMessage`, `simpleLog
 * `trans_erun` : EVERY interleaving of the recorded events of any number of goroutines = the hand model's `lrun` (step for step)
 * transfers: `C18_filter_trans`, `C18_filter_line_trans`, `C18_off_silences_all_trans`, `C18_format_trans`, `C18_label_trans`,
   `C18_mutex_trans`
+
+## SlogLogger, NoOpLogger
+* `log_spec`, `trans_slogCall` : a level method = `log` with `Logger.slogLevel lv`; `log` in closed form (Enabled guard, Callers(3), one record, Handle)
+* `trans_slogLog` : the records handed to the handler = `Logger.slogLog`; `trans_NewSlogLogger`
+* transfers: `C18_slog_level_map_trans`, `C18_noop_trans` (+ `trans_noop_bodies`)
 -/
 set_option autoImplicit false
 set_option linter.unusedSimpArgs false
@@ -26,6 +31,9 @@ open Generated.TransLogger
 variable {W A : Type}
 
 theorem trans_logger_nothing_missing : Generated.TransLogger.missing = [] := by decide
+
+/-- the part of `missing` that concerns package logger (an untranslatable change of job/isolated_job.go does not touch this one) -/
+theorem trans_logger_area_nothing_missing : Generated.TransLogger.missingLogger = [] := by decide
 
 /-! ## constants, filter, constructor -/
 
@@ -218,5 +226,157 @@ example :
     (erun (callProg idFmt okExt () (NewSimpleLogger none LevelInfo)) (einit cwork) [0, 1, 0, 1, 0, 0, 1, 1, 1, 1, 1]).out.map
         (fun e => (e.label, e.msg)) = [("ERROR ", "c"), ("WARN ", "a")] := by
   decide
+
+/-! ## SlogLogger -/
+
+/-- the translated method of each level -/
+def slogCall [Inhabited A] (lv : Logger.Lvl) (X : Ext W A) (σ : St W A) (l : SlogLogger) (msg : String) (args : List A) :
+    St W A × CallResult Unit :=
+  match lv with
+  | .trace => SlogLogger.Trace X σ l msg args
+  | .debug => SlogLogger.Debug X σ l msg args
+  | .info => SlogLogger.Info X σ l msg args
+  | .warn => SlogLogger.Warn X σ l msg args
+  | .error => SlogLogger.Error X σ l msg args
+
+theorem log_spec [Inhabited A] (X : Ext W A) (σ : St W A) (l : SlogLogger) (level : Int) (msg : String) (args : List A) :
+    SlogLogger.log X σ l level msg args =
+      if (X.enabled σ.world l.logger l.ctx level).2 = true then
+        ({ world := (X.handle (X.enabled σ.world l.logger l.ctx level).1 l.logger l.ctx ⟨level, msg, args⟩).1,
+           out := σ.out ++ [.enabled l.logger l.ctx level true, .callers 3,
+             .handle l.logger l.ctx ⟨level, msg, args⟩
+               (X.handle (X.enabled σ.world l.logger l.ctx level).1 l.logger l.ctx ⟨level, msg, args⟩).2] },
+         resultOf (X.handle (X.enabled σ.world l.logger l.ctx level).1 l.logger l.ctx ⟨level, msg, args⟩).2)
+      else
+        ({ world := (X.enabled σ.world l.logger l.ctx level).1, out := σ.out ++ [.enabled l.logger l.ctx level false] },
+         .returned ()) := by
+  unfold SlogLogger.log
+  simp only [St.enabled, St.emit, St.handle, Record.new, Record.add, List.nil_append]
+  by_cases he : (X.enabled σ.world l.logger l.ctx level).2 = true
+  · simp only [he, Bool.not_true, Bool.false_eq_true, if_false, if_true, resultOf]
+    cases (X.handle (X.enabled σ.world l.logger l.ctx level).1 l.logger l.ctx ⟨level, msg, args⟩).2 <;> simp
+  · have he' : (X.enabled σ.world l.logger l.ctx level).2 = false := by simpa using he
+    simp [he']
+
+/-- a method that only passes on the outcome of its one call IS that call -/
+theorem passOn_eq {S : Type} (p : S × CallResult Unit) :
+    (match p.2 with
+      | .panicked => (p.1, CallResult.panicked)
+      | .returned _ => (p.1, CallResult.returned ())) = p := by
+  rcases p with ⟨a, b⟩
+  cases b with
+  | panicked => rfl
+  | returned u => cases u; rfl
+
+/-- **one call of a SlogLogger method** is `log` with `<level> = Logger.slogLevel lv` (Trace = Debug − 4 = −8): it asks
+`Enabled(ctx, <level>)` on the stored logger and context; if the answer is no, nothing else happens; otherwise `runtime.Callers(3, …)`,
+then ONE record with that level, the message and ALL arguments in order goes to `Handler().Handle` with the stored context (`log_spec`);
+a panic of the handler, not its error, reaches the caller. -/
+theorem trans_slogCall [Inhabited A] (lv : Logger.Lvl) (X : Ext W A) (σ : St W A) (l : SlogLogger) (msg : String) (args : List A) :
+    slogCall lv X σ l msg args = SlogLogger.log X σ l (Logger.slogLevel lv) msg args := by
+  cases lv <;>
+  · simp only [slogCall, SlogLogger.Trace, SlogLogger.Debug, SlogLogger.Info, SlogLogger.Warn, SlogLogger.Error, Logger.slogLevel,
+      LevelTrace]
+    exact passOn_eq _
+
+/-- the records handed to the handler -/
+def handled : List (Event A) → List (Record A)
+  | [] => []
+  | .handle _ _ r _ :: es => r :: handled es
+  | _ :: es => handled es
+
+theorem handled_append (a b : List (Event A)) : handled (a ++ b) = handled a ++ handled b := by
+  induction a with
+  | nil => rfl
+  | cons e es ih => cases e <;> simp [handled, ih]
+
+/-- the hand model's record: attributes are `slog.Record.Add`'s pairing (contract of log/slog, `Logger.slogAttrs`) of the rendered arguments -/
+def absRecord (render : A → String) (r : Record A) : Logger.SlogRecord :=
+  { level := r.level, msg := r.msg, attrs := Logger.slogAttrs (r.args.map render) }
+
+/-- **`SlogLogger.<Level>` = `Logger.slogLog`**: with `en level` = the handler's answer to `Enabled(ctx, level)` in the current world, the
+records a call adds to what the handler has received are exactly the model's -/
+theorem trans_slogLog [Inhabited A] (lv : Logger.Lvl) (X : Ext W A) (σ : St W A) (l : SlogLogger) (msg : String) (args : List A)
+    (render : A → String) :
+    (handled (slogCall lv X σ l msg args).1.out).map (absRecord render) =
+      (handled σ.out).map (absRecord render) ++
+        (Logger.slogLog (fun level => (X.enabled σ.world l.logger l.ctx level).2) lv msg (args.map render)).toList := by
+  rw [trans_slogCall lv X σ l msg args, log_spec]
+  unfold Logger.slogLog
+  by_cases he : (X.enabled σ.world l.logger l.ctx (Logger.slogLevel lv)).2 = true
+  · simp [handled_append, handled, absRecord, he]
+  · have he' : (X.enabled σ.world l.logger l.ctx (Logger.slogLevel lv)).2 = false := by simpa using he
+    simp [handled_append, handled, he']
+
+/-- `C18_slog_level_map` for the translated methods: the level each method asks about and puts into the record is the numeric value of the
+corresponding `logger.Level` (−8, −4, 0, 4, 8); a record reaches the handler iff the handler is enabled for that level; it carries that
+level, the message and all arguments in order -/
+theorem C18_slog_level_map_trans [Inhabited A] (lv : Logger.Lvl) (X : Ext W A) (σ : St W A) (l : SlogLogger) (msg : String)
+    (args : List A) :
+    let lvl := Logger.slogLevel lv
+    let en := (X.enabled σ.world l.logger l.ctx lvl).2
+    lvl = lv.value ∧
+    (∃ rest, (slogCall lv X σ l msg args).1.out = σ.out ++ .enabled l.logger l.ctx lvl en :: rest ∧
+      (en = false → rest = []) ∧
+      (en = true → ∃ res, rest = [.callers 3, .handle l.logger l.ctx ⟨lvl, msg, args⟩ res])) := by
+  intro lvl en
+  refine ⟨(Logger.C18_slog_level_map.2.2.2.2.2.1) lv, ?_⟩
+  rw [trans_slogCall lv X σ l msg args, log_spec]
+  by_cases he : (X.enabled σ.world l.logger l.ctx (Logger.slogLevel lv)).2 = true
+  · have hen : en = true := he
+    refine ⟨[.callers 3, .handle l.logger l.ctx ⟨lvl, msg, args⟩
+      (X.handle (X.enabled σ.world l.logger l.ctx lvl).1 l.logger l.ctx ⟨lvl, msg, args⟩).2], ?_, fun h => ?_, fun _ => ⟨_, rfl⟩⟩
+    · simp [he, hen, lvl]
+    · rw [hen] at h; cases h
+  · have he' : (X.enabled σ.world l.logger l.ctx (Logger.slogLevel lv)).2 = false := by simpa using he
+    have hen : en = false := he'
+    refine ⟨[], ?_, fun _ => rfl, fun h => ?_⟩
+    · simp [he', hen, lvl]
+    · rw [hen] at h; cases h
+
+/-- `NewSlogLogger`: panics on a nil logger; a nil context becomes `context.Background()`; otherwise both are stored as given -/
+theorem trans_NewSlogLogger (ctx lg : Option Ref) :
+    NewSlogLogger ctx lg =
+      (match lg with
+       | none => .panicked
+       | some g => .returned { ctx := some (ctx.getD Ref.background), logger := some g }) := by
+  unfold NewSlogLogger
+  cases lg <;> cases ctx <;> rfl
+
+/-! ## NoOpLogger -/
+
+/-- the translated method of each level: no externals, no state — the type alone says it cannot record anything -/
+def noopCall (lv : Logger.Lvl) (n : NoOpLogger) (msg : String) (args : List A) [Inhabited A] : Unit :=
+  match lv with
+  | .trace => NoOpLogger.Trace n msg args
+  | .debug => NoOpLogger.Debug n msg args
+  | .info => NoOpLogger.Info n msg args
+  | .warn => NoOpLogger.Warn n msg args
+  | .error => NoOpLogger.Error n msg args
+
+/-- `C18_noop`: every NoOpLogger method has an empty body (it is translated as a function WITHOUT state argument, returning `()`), as the
+model's `noopLog` = `none` -/
+theorem C18_noop_trans [Inhabited A] (lv : Logger.Lvl) (n : NoOpLogger) (msg : String) (args : List A) (render : A → String) :
+    noopCall lv n msg args = () ∧ Logger.noopLog lv msg (args.map render) = none :=
+  ⟨rfl, rfl⟩
+
+/-- every one of the five bodies unfolds to `()` (this is what breaks when a body gets a statement: the definition then takes `σ`) -/
+theorem trans_noop_bodies [Inhabited A] (n : NoOpLogger) (msg : String) (args : List A) :
+    NoOpLogger.Trace n msg args = () ∧ NoOpLogger.Debug n msg args = () ∧ NoOpLogger.Info n msg args = () ∧
+    NoOpLogger.Warn n msg args = () ∧ NoOpLogger.Error n msg args = () := ⟨rfl, rfl, rfl, rfl, rfl⟩
+
+/-- a handler enabled from Debug upwards: Trace is dropped after the `Enabled` question, Debug goes through with both arguments -/
+def debugExt : Ext Unit String := { okExt with enabled := fun w _ _ lvl => (w, decide (lvl ≥ -4)) }
+
+example :
+    (slogCall .trace debugExt { world := () } ⟨some 0, some 5⟩ "m" ["k", "v"]).1.out = [.enabled (some 5) (some 0) (-8) false] ∧
+    (slogCall .debug debugExt { world := () } ⟨some 0, some 5⟩ "m" ["k", "v", "z"]).1.out =
+      [.enabled (some 5) (some 0) (-4) true, .callers 3, .handle (some 5) (some 0) ⟨-4, "m", ["k", "v", "z"]⟩ (.returned none)] := by
+  decide
+
+example : (handled (slogCall .debug debugExt { world := () } ⟨some 0, some 5⟩ "m" ["k", "v", "z"]).1.out).map (absRecord id) =
+    [⟨-4, "m", [("k", "v"), ("!BADKEY", "z")]⟩] := by decide
+
+example : NewSlogLogger none (some 7) = .returned ⟨some Ref.background, some 7⟩ ∧ NewSlogLogger (some 3) none = .panicked := by decide
 
 end TransLogger
